@@ -1,6 +1,7 @@
 #!/bin/bash
 # applies a benign refactoring patch to /repo, runs every quick check, undoes it: every check must exit 0
 d=/verif/seeded/$1
+export VERIF_EVIDENCE_DIR=/tmp/verif_scratch_evidence; mkdir -p $VERIF_EVIDENCE_DIR
 cd /repo && git apply $d/patch.diff || { echo "APPLY FAILED"; exit 9; }
 cd /verif
 for p in C01 C02 C03 C04 C05 C06 C07 C08 C09 C10 C11 C12 C13 C14 C15 C16 C17 C18 C19 C20; do python3-vt vcheck.py $p > /tmp/benign_$p.log 2>&1; echo "$p exit=$? $(grep -c '^VIOLATION' /tmp/benign_$p.log) $(tail -1 /tmp/benign_$p.log | cut -c1-140)"; done
